@@ -28,12 +28,13 @@ LEVEL_TEXT = ("static analysis: (D1) _parse_records interpreted on symbolic reco
               'their own segments of a table whose index is not 0..n-1. D2 includes FORMAT fields that are listed but missing ((None,) / None): '
               'the next count source is used. D7 also decides, for calling method {threshold, clonal, none} x purity {absent, 1, 1/2}, that the '
               'baf column is rescale_baf(purity, observed) exactly when purity < 1. D1 reads a tumour / normal pair in either column order (and '
-              "beside a third sample): each sample's own genotype fields, by name. (CLI) the `call / segment` command line(s), through a model of"
-              ' argparse built from the declarations in commands.py and the real _cmd_ body interpreted with readers, library step and writers '
-              'stubbed: -v, -i, -n, --min-variant-depth and -z (0.25 when given without a value) reach load_het_snps as given. D4 also runs '
-              'load_het_snps with an explicit zygosity cut-off z on literal frequencies: kept <=> z <= freq < 1 - z; TumorBoost is decided on a '
-              "tie (tumour = normal frequency) as well. Does not decide pysam's parsing, the median aggregation values, nor heterozygous()'s "
-              'documented fallback.')
+              "beside a third sample): each sample's own genotype fields, by name. (D8) a segment's variants are looked up on the segment's own "
+              'chromosome: by_shared_chroms (C07-D6 rule), incl. a one-chromosome segment table against a genome-wide VCF. (CLI) the `call / '
+              'segment` command line(s), through a model of argparse built from the declarations in commands.py and the real _cmd_ body '
+              'interpreted with readers, library step and writers stubbed: -v, -i, -n, --min-variant-depth and -z (0.25 when given without a '
+              'value) reach load_het_snps as given. D4 also runs load_het_snps with an explicit zygosity cut-off z on literal frequencies: kept '
+              "<=> z <= freq < 1 - z; TumorBoost is decided on a tie (tumour = normal frequency) as well. Does not decide pysam's parsing, the "
+              "median aggregation values, nor heterozygous()'s documented fallback.")
 TECHNIQUE = "abstract interpretation over finite genotype / field-presence domains and order positions; exact rational identities; index-provenance (fresh vs aligned Series) tracking"
 
 V = "skgenome.tabio.vcfio"
